@@ -4753,3 +4753,66 @@ def env10(ctx):
                      "the scan loop is left although the matcher found a match or could still look further (an exit that is neither `no match` nor `no next position`): positions after it are never examined -- an early stop computed for the longest alternative of an environment set skips positions a shorter alternative still matches")
         k += 1
     return r
+
+
+# ---------------------------------------------------------------- FLW-8s: a rejected alternative of an input set leaves no bindings
+
+def flw8s(ctx):
+    """`{[αnasal, +voice], [-voice]} > [αs.g.]`: the alternatives of a set in the rule's input are tried in turn, and a
+    matrix binds its alphas feature by feature before a later feature rejects the segment. In input_match_set every path
+    from a trial of an alternative back to the loop head (= it was rejected) passes a write access to both binding
+    tables (the restore of the snapshot taken before the loop)."""
+    from engine_flw2 import _single_def
+    r = RuleResult("FLW-8s", "input_match_set: after an alternative of the set was rejected, both binding tables (alphas, variables) are restored before the next alternative is tried", floor=2)
+    lib = ctx.lib
+    b = ctx.fn(lib, "asca::subrule::SubRule::input_match_set")
+    cfg = b.cfg
+    trial_names = ("input_match_var", "input_match_ipa", "input_match_matrix", "input_match_syll")
+    trials = {i for i, t in b.calls() if (callee_path(t) or "").startswith("asca::subrule::SubRule::") and (callee_path(t) or "").rsplit("::", 1)[-1] in trial_names}
+    if len(trials) < 3:
+        raise AnchorMissing("FLW-8s: input_match_set: %d trials of a set alternative (expected >= 3)" % len(trials))
+
+    def cell_of(l, depth=0):
+        d = _single_def(b, l)
+        if d is None or depth > 4:
+            return None
+        if d.get("k") == "ref":
+            for p in d["pl"]["p"]:
+                if isinstance(p, dict) and p.get("n") in ("alphas", "variables"):
+                    return p["n"]
+            return cell_of(d["pl"]["l"], depth + 1)
+        if d.get("k") == "use" and d["op"].get("k") in ("copy", "move"):
+            return cell_of(d["op"]["pl"]["l"], depth + 1)
+        return None
+    W = {"alphas": set(), "variables": set()}
+    for i, t in b.calls():
+        if (t["callee"].get("def") or "").endswith("RefCell::borrow_mut") or (callee_path(t) or "").endswith("RefCell<T>::borrow_mut"):
+            a = t["args"][0]
+            c = cell_of(a["pl"]["l"]) if a.get("k") in ("copy", "move") else None
+            if c in W:
+                W[c].add(i)
+    n = 0
+    for h, body in cfg.loops:
+        body = set(body)
+        ts = sorted(trials & body)
+        if not ts:
+            continue
+        for c in ("alphas", "variables"):
+            n += 1
+            bad = None
+            for t_ in ts:
+                nxt = b.blocks[t_]["t"].get("t")
+                if nxt is None:
+                    continue
+                reach = cfg.reachable_from(nxt, avoid=(W[c] & body) | (set(range(len(b.blocks))) - body))
+                if any(h in cfg.succ[x] for x in reach) or nxt == h:
+                    bad = t_
+                    break
+            loc = ":".join((b.blocks[h]["t"].get("loc") or b.loc).split(":")[:2])
+            r.inst("input_match_set: a rejected alternative restores `%s` before the next one (%d trials)" % (c, len(ts)), loc, "ok" if bad is None else "report")
+            if bad is not None:
+                r.report("FLW-8s|input_match_set|%s" % c, ":".join((b.blocks[bad]["t"].get("loc") or b.loc).split(":")[:2]), b.path,
+                         "an alternative of an input set can be rejected and the next one tried without `%s` being restored: the half-made bindings of the rejected matrix reach the later alternatives, the context and the output -- `{[αnasal, +voice], [αcont, -voice]} > [αs.g.]` on `sa` gives `sa` instead of `sʰa`" % c)
+    if n < 2:
+        raise AnchorMissing("FLW-8s: no loop over the set's alternatives found in input_match_set")
+    return r
